@@ -109,23 +109,29 @@ Fixpoint for_neighbours (f : sstruct -> nat -> result sstruct) (target : nat)
 Definition conn_touches (id : nat) (c : spin * spin) : bool :=
   Nat.eqb (fst (fst c)) id || Nat.eqb (fst (snd c)) id.
 
-(* Solver.remove_structure *)
-Definition remove_op (s : wstate) (id : nat) : wstate * option err :=
-      if negb (nmem id (w_structs s)) then (s, Some ENotPresent) else
-      let s0 := {| w_structs := nremove1 id (w_structs s); w_store := w_store s; w_conns := w_conns s;
-                   w_clist := w_clist s; w_free := w_free s; w_map := w_map s |} in
-      match for_neighbours remove_connections id (s_to (getst s0 id)) s0 with
-      | (s1, Some e) => (s1, Some e)
-      | (s1, None) =>
-          let me := getst s1 id in
-          let s2 := setst s1 id {| s_pins := s_pins me; s_conn := []; s_to := [] |} in
-          let hit := filter (conn_touches id) (w_conns s2) in
-          ({| w_structs := w_structs s2; w_store := w_store s2;
-              w_conns := filter (fun c => negb (conn_touches id c)) (w_conns s2);
-              w_clist := fold_left (fun l c => remove1 (fst c) (remove1 (snd c) l)) hit (w_clist s2);
-              w_free := filter (fun p => negb (Nat.eqb (fst p) id)) (w_free s2);
-              w_map := filter (fun e => negb (Nat.eqb (fst (snd e)) id)) (w_map s2) |}, None)
-      end.
+(* Solver.cut_structure (refree = true: the partners' pins become free again) and Solver.remove_structure
+   (refree = false: the partners' pins are dropped by remove_connections) *)
+Definition detach_op (f : sstruct -> nat -> result sstruct) (refree : bool) (s : wstate) (id : nat)
+  : wstate * option err :=
+  if negb (nmem id (w_structs s)) then (s, Some ENotPresent) else
+  let s0 := {| w_structs := nremove1 id (w_structs s); w_store := w_store s; w_conns := w_conns s;
+               w_clist := w_clist s; w_free := w_free s; w_map := w_map s |} in
+  match for_neighbours f id (s_to (getst s0 id)) s0 with
+  | (s1, Some e) => (s1, Some e)
+  | (s1, None) =>
+      let me := getst s1 id in
+      let s2 := setst s1 id {| s_pins := s_pins me; s_conn := []; s_to := [] |} in
+      let hit := filter (conn_touches id) (w_conns s2) in
+      ({| w_structs := w_structs s2; w_store := w_store s2;
+          w_conns := filter (fun c => negb (conn_touches id c)) (w_conns s2);
+          w_clist := fold_left (fun l c => remove1 (fst c) (remove1 (snd c) l)) hit (w_clist s2);
+          w_free := filter (fun p => negb (Nat.eqb (fst p) id))
+                           (if refree then w_free s2 ++ flat_map (fun c => [snd c; fst c]) hit else w_free s2);
+          w_map := filter (fun e => negb (Nat.eqb (fst (snd e)) id)) (w_map s2) |}, None)
+  end.
+
+Definition cut_op := detach_op cut_connections true.
+Definition remove_op := detach_op remove_connections false.
 
 (* Solver.prune() on a flat solver: every structure holding an empty model is removed, visiting a COPY of
    the structure list in declaration order *)
@@ -174,23 +180,7 @@ Definition step (s : wstate) (o : wop) : wstate * option err :=
                    | Ok t2 => (setst s2 (fst y) t2, None)
                    end
         end
-  | Cut id =>
-      if negb (nmem id (w_structs s)) then (s, Some ENotPresent) else
-      let s0 := {| w_structs := nremove1 id (w_structs s); w_store := w_store s; w_conns := w_conns s;
-                   w_clist := w_clist s; w_free := w_free s; w_map := w_map s |} in
-      match for_neighbours cut_connections id (s_to (getst s0 id)) s0 with
-      | (s1, Some e) => (s1, Some e)
-      | (s1, None) =>
-          let me := getst s1 id in
-          let s2 := setst s1 id {| s_pins := s_pins me; s_conn := []; s_to := [] |} in
-          let hit := filter (conn_touches id) (w_conns s2) in
-          ({| w_structs := w_structs s2; w_store := w_store s2;
-              w_conns := filter (fun c => negb (conn_touches id c)) (w_conns s2);
-              w_clist := fold_left (fun l c => remove1 (fst c) (remove1 (snd c) l)) hit (w_clist s2);
-              w_free := filter (fun p => negb (Nat.eqb (fst p) id))
-                               (w_free s2 ++ flat_map (fun c => [snd c; fst c]) hit);
-              w_map := filter (fun e => negb (Nat.eqb (fst (snd e)) id)) (w_map s2) |}, None)
-      end
+  | Cut id => cut_op s id
   | Remove id => remove_op s id
   | Prune empties => prune_ops (w_structs s) empties s
   | MapPin name x =>
